@@ -91,6 +91,7 @@ class C17(Prop):
         return st.fixed_dictionaries({"mode": st.sampled_from(["compose", "compose", "direct"]),
                                       "scopes": st.fixed_dictionaries({k: name_sets() for k in SCOPES}),
                                       "pre": st.lists(st.integers(0, 7), max_size=3),
+                                      "two_phase": st.integers(0, 2).map(lambda v: v == 0),
                                       "allow_long": st.integers(0, 5).map(lambda v: v == 0),
                                       "allow_buslike": st.integers(0, 5).map(lambda v: v == 0)})
 
@@ -126,6 +127,7 @@ class C17(Prop):
         if case["mode"] == "direct":
             self.direct(res, case)
         else:
+            self._two_phase = bool(case.get("two_phase"))
             self.compose(res, sets)
         return res
 
@@ -159,26 +161,53 @@ class C17(Prop):
     def compose(self, res, sets):
         import spydrnet as sdn
 
+        two = bool(getattr(self, "_two_phase", False))
+
+        def first(names):
+            return names[:(len(names) + 1) // 2] if two else names
+
+        def rest(names):
+            return names[(len(names) + 1) // 2:] if two else []
         nl = sdn.Netlist(name="nl")
-        libs = [nl.create_library(name=n) for n in sets["libraries"]]
+        libs = [nl.create_library(name=n) for n in first(sets["libraries"])]
         L = libs[0]
         leaf = L.create_definition(name="leaf_cell_0")
         leaf.create_port(name="I", pins=1, direction=sdn.IN)
-        cells = [L.create_definition(name=n) for n in sets["cells"] if n != "leaf_cell_0"]
+        cell_names = [n for n in sets["cells"] if n != "leaf_cell_0"]
+        cells = [L.create_definition(name=n) for n in first(cell_names)]
         top = cells[0] if cells else leaf
         if top is leaf:
             top = L.create_definition(name="top_cell_0")
             cells = [top]
-        ports = [top.create_port(name=n, pins=1, direction=sdn.IN) for n in sets["ports"]]
-        insts = [top.create_child(name=n, reference=leaf) for n in sets["instances"]]
-        nets = [top.create_cable(name=n, wires=1) for n in sets["nets"]]
+        ports = [top.create_port(name=n, pins=1, direction=sdn.IN) for n in first(sets["ports"])]
+        insts = [top.create_child(name=n, reference=leaf) for n in first(sets["instances"])]
+        nets = [top.create_cable(name=n, wires=1) for n in first(sets["nets"])]
+        nl.top_instance = sdn.Instance(name="top_inst")
+        nl.top_instance.reference = top
+        if two:
+            # a first export records identifiers; new siblings arrive afterwards (an exported or
+            # EDIF-read design that is edited and exported again)
+            with tempfile.TemporaryDirectory() as td0:
+                try:
+                    sdn.compose(nl, os.path.join(td0, "first.edf"))
+                except Exception as e:  # noqa
+                    res.violate("C17:compose-raises:%s" % type(e).__name__, repr(e)[:300])
+                    return
+            try:
+                libs += [nl.create_library(name=n) for n in rest(sets["libraries"])]
+                cells += [L.create_definition(name=n) for n in rest(cell_names)]
+                ports += [top.create_port(name=n, pins=1, direction=sdn.IN) for n in rest(sets["ports"])]
+                insts += [top.create_child(name=n, reference=leaf) for n in rest(sets["instances"])]
+                nets += [top.create_cable(name=n, wires=1) for n in rest(sets["nets"])]
+            except ValueError:
+                res.label("second-phase-name-refused")
+                return
+            res.label("exported-twice-with-new-siblings")
         for k, c in enumerate(nets):
             if k < len(ports):
                 c.wires[0].connect_pin(ports[k].pins[0])
             if k < len(insts):
                 c.wires[0].connect_pin(insts[k].pins[leaf.ports[0].pins[0]])
-        nl.top_instance = sdn.Instance(name="top_inst")
-        nl.top_instance.reference = top
         with tempfile.TemporaryDirectory() as td:
             path = os.path.join(td, "n.edf")
             try:
